@@ -14,6 +14,14 @@ func scenarioC17(r *Run) {
 	securityFor(r, carrier, &cfg)
 	cfg.Channels = []ChanCfg{{Name: "alpha", Target: "tcp://" + TargetIP + ":7001"}}
 	cfg.Listeners = []LsnCfg{{Channel: "alpha", Kind: "tcp", Addr: "127.0.0.1:6001"}}
+	// One run in six: the listener has a forward address at which the target is reachable, so the client connects
+	// the application to it directly (no session, no server). Close and end-of-stream are owed on that path too.
+	direct := c.Chance(1, 6, "direct-forward")
+	if direct {
+		cfg.Listeners[0].Forward = "tcp://" + TargetIP + ":7001"
+		r.Count("runs_over_the_forward_address")
+	}
+	r.Info["direct_forward"] = direct
 	maxPayload := payloadCap(r, carrier)
 	r.Net.DefaultCap = c.OneOf("sockbuf", 65536, 0, 4096, 262144)
 	pol := &NetPolicy{ChunkBias: c.Pick(3, "chunk-bias")}
@@ -165,7 +173,12 @@ func scenarioC17(r *Run) {
 	if CarrierIsDNS(carrier) {
 		bound = 30 * time.Minute
 	}
-	out := r.Drive(pol, goal, extra, 90*time.Second, bound)
+	idle := 90 * time.Second
+	if direct {
+		// no session, no keep-alive: while a closer thinks (up to 120 s) nothing at all happens
+		idle = 150 * time.Second
+	}
+	out := r.Drive(pol, goal, extra, idle, bound)
 	if out == Aborted {
 		return
 	}
@@ -181,7 +194,11 @@ func scenarioC17(r *Run) {
 		otherWriting = Y.TxErr != nil || ys < int64(otherBytes) || len(Y.Script) > 0 || xr < ys
 		Y.mu.Unlock()
 	}
-	sigBase := fmt.Sprintf("carrier=%s closer=%s data_towards_closer_outstanding=%v", carrierClass(carrier), closer, otherWriting)
+	cclass := carrierClass(carrier)
+	if direct {
+		cclass = "direct"
+	}
+	sigBase := fmt.Sprintf("carrier=%s closer=%s data_towards_closer_outstanding=%v", cclass, closer, otherWriting)
 	if test.Tp == nil || test.App == nil || X == nil {
 		r.FailSig("no-connection", sigBase, "%s: the test connection was never established end to end: %v", out, cs.Describe())
 		return
